@@ -434,10 +434,14 @@ class DynRelaxation(Unit):
         for cname, qn in QUANT:
             yield names[qn], sv.implies(ink, sv.cmp("==", col[cname], avg(qn))), {"assume": [count_T, reidx[qn]], "abstract_nl": True, "solver_opts": NO_UNFOLD}
         nsel0 = W.nsel(0)
+        # the two derived columns: the averages <Q> and <M2> inside them are the columns Qt and msd (clauses above, used as
+        # assumptions here), so each needs only the all-origin average of one more pair quantity
+        qt_is = sv.implies(ink, sv.cmp("==", col["Qt"], avg("Q")))
+        msd_is = sv.implies(ink, sv.cmp("==", col["msd"], avg("M2")))
         yield ("X4_Qt:N(<Q^2>-<Q>^2)", sv.implies(ink, sv.cmp("==", col["X4_Qt"], sv.mul(sv.sub(avg("Q2"), sv.mul(avg("Q"), avg("Q"))), nsel0))),
-               {"assume": [count_T, reidx["Q"], reidx["Q2"]], "abstract_nl": True, "solver_opts": NO_UNFOLD})
+               {"assume": [count_T, reidx["Q2"], qt_is], "abstract_nl": True, "solver_opts": NO_UNFOLD})
         yield ("alpha2:c_d<M4>/<M2>^2-1", sv.implies(ink, sv.cmp("==", col["alpha2"], sv.sub(sv.div(sv.mul(alpha2_prefactor(d), avg("M4")), sv.mul(avg("M2"), avg("M2"))), 1))),
-               {"assume": [count_T, reidx["M2"], reidx["M4"]], "abstract_nl": True, "solver_opts": NO_UNFOLD})
+               {"assume": [count_T, reidx["M4"], msd_is], "abstract_nl": True, "solver_opts": NO_UNFOLD})
         stores = [e for e in out.state.events if e[0] == "store" and e[1] in inp["watch"]]
         yield "frame-inputs-not-written", len(stores) == 0
 
@@ -445,7 +449,228 @@ class DynRelaxation(Unit):
         return None
 
     def replay(self, case, clause, model, seed):
-        return {"ran": False, "failed": False, "error": "todo"}
+        return _replay_relaxation("linear", case, clause, model, seed)
+
+
+# ------------------------------------------------------------------------------------------------------
+# replay: the real classes under CPython against an independent numpy implementation of the definitions
+
+
+def _ref_min_image(D, H, ppp):
+    import numpy as np
+    frac = D @ np.linalg.inv(H)
+    frac = frac - np.rint(frac) * ppp
+    return frac @ H
+
+
+def _ref_cage(D, nl):
+    import numpy as np
+    out = np.zeros_like(D)
+    for i in range(D.shape[0]):
+        cn = int(nl[i][0])
+        acc = np.zeros(D.shape[1])
+        for t in range(cn):
+            acc += D[int(nl[i][1 + t])]
+        out[i] = D[i] - acc / cn
+    return out
+
+
+def _ref_pair(pos, n0, n1, H, ppp, nls, sel, diam, a, qconst, fast):
+    """(F, Q, M2, M4, N_sel) of the frame pair (n0, n1) straight from the definitions"""
+    import numpy as np
+    D = pos[n1] - pos[n0]
+    if H is not None:
+        D = _ref_min_image(D, H[n0], ppp)
+    if nls is not None:
+        D = _ref_cage(D, nls[n0])
+    idx = [i for i in range(D.shape[0]) if sel is None or sel[i]]
+    F = 0.0
+    Q = 0.0
+    M2 = 0.0
+    M4 = 0.0
+    for i in idx:
+        q = qconst / diam[i]
+        r2 = 0.0
+        for ax in range(D.shape[1]):
+            F += np.cos(q * D[i, ax])
+            r2 += D[i, ax] ** 2
+        cut = (a * diam[i]) ** 2
+        Q += 1.0 if ((r2 > cut) if fast else (r2 < cut)) else 0.0
+        M2 += r2
+        M4 += r2 * r2
+    ns = len(idx)
+    return F / (ns * D.shape[1]), Q / ns, M2 / ns, M4 / ns, ns
+
+
+def _ref_table(kind, pos, ts, dt, H, ppp, nls, cond, diam, a, qconst, fast):
+    import numpy as np
+    T, N, d = pos.shape
+    cd = {3: 3.0 / 5.0, 2: 1.0 / 2.0}[d]
+    rows = []
+    for k in range(T - 1):
+        lag = k + 1
+        origins = range(0, T - lag) if kind == "linear" else [0]
+        vals = []
+        for n0 in origins:
+            sel = None if cond is None else (cond[n0] if kind == "linear" else cond)
+            vals.append(_ref_pair(pos, n0, n0 + lag, H, ppp, nls if (nls is None or kind == "linear") else [nls], sel, diam, a, qconst, fast))
+        F = sum(v[0] for v in vals) / len(vals)
+        Q = sum(v[1] for v in vals) / len(vals)
+        Q2 = sum(v[1] ** 2 for v in vals) / len(vals)
+        M2 = sum(v[2] for v in vals) / len(vals)
+        M4 = sum(v[3] for v in vals) / len(vals)
+        nsel = _ref_pair(pos, 0, 1, None, None, None, None if cond is None else (cond[0] if kind == "linear" else cond), diam, a, qconst, fast)[4]
+        x4 = nsel * (Q2 - Q * Q) if kind == "linear" else 0.0
+        rows.append([(ts[lag] - ts[0]) * dt, F, Q, x4, M2, cd * M4 / (M2 * M2) - 1.0])
+    return np.array(rows)
+
+
+def _write_neighbors(path, nls):
+    with open(path, "w", encoding="utf-8") as f:
+        for nl in nls:
+            f.write("id     cn     neighborlist\n")
+            for i, row in enumerate(nl):
+                f.write(" ".join([str(i + 1), str(len(row))] + [str(j + 1) for j in row]) + "\n")
+
+
+def _mk_snapshots(pos, ts, ptype, H):
+    import importlib
+    import numpy as np
+    R = importlib.import_module(RU)
+    T, N, d = pos.shape
+    snaps = []
+    for n in range(T):
+        h = H[n] if H is not None else np.eye(d) * 50.0
+        snaps.append(R.SingleSnapshot(timestep=int(ts[n]), nparticle=N, particle_type=ptype.copy(), positions=pos[n].copy(),
+                                      boxlength=np.abs(np.diag(h)).copy(), boxbounds=np.array([[0.0, abs(h[c, c])] for c in range(d)]),
+                                      realbounds=None, hmatrix=h.copy()))
+    return R.Snapshots(nsnapshots=T, snapshots=snaps)
+
+
+def _random_world(rng, d, pbc, cage, cond, T, N, kind):
+    import numpy as np
+    ts = np.cumsum(rng.integers(1, 5, size=T)) * 10
+    if kind == "linear":
+        ts = np.arange(T) * int(rng.integers(1, 20)) + int(rng.integers(0, 50))
+    ptype = rng.integers(1, 3, size=N)
+    diameters = {1: float(rng.uniform(0.6, 1.4)), 2: float(rng.uniform(0.6, 1.4))}
+    H = None
+    ppp = np.zeros(d, dtype=int)
+    base = rng.uniform(0.0, 4.0, size=(N, d))
+    steps = rng.normal(0.0, rng.choice([0.05, 0.3, 1.0]), size=(T, N, d))
+    pos = base[None] + np.cumsum(steps, axis=0)
+    if pbc:
+        H = np.zeros((T, d, d))
+        for n in range(T):
+            h = np.diag(rng.uniform(3.0, 5.0, size=d))
+            for r_ in range(d):
+                for c_ in range(r_):
+                    h[r_, c_] = rng.uniform(-1.0, 1.0) * rng.integers(0, 2)
+            H[n] = h if n == 0 or rng.integers(0, 2) else H[0]
+        ppp = rng.integers(0, 2, size=d)
+        if not ppp.any():
+            ppp[int(rng.integers(0, d))] = 1
+        # wrapped coordinates: shift by lattice vectors of periodic axes
+        for n in range(T):
+            zz = rng.integers(-2, 3, size=(N, d)) * ppp
+            pos[n] = pos[n] + zz @ H[n]
+    nls = None
+    if cage:
+        nls = []
+        for n in range(T):
+            nl = []
+            for i in range(N):
+                others = [j for j in range(N) if j != i]
+                cn = int(rng.integers(1, min(N - 1, 4) + 1))
+                nl.append([int(x) for x in rng.choice(others, size=cn, replace=False)])
+            nls.append(nl)
+    cnd = None
+    if cond:
+        shape = (T, N) if kind == "linear" else (N,)
+        cnd = rng.integers(0, 2, size=shape).astype(bool)
+        if kind == "linear":
+            for n in range(T):
+                if not cnd[n].any():
+                    cnd[n, int(rng.integers(0, N))] = True
+        elif not cnd.any():
+            cnd[int(rng.integers(0, N))] = True
+    return dict(pos=pos, ts=ts, ptype=ptype, diameters=diameters, H=H, ppp=ppp, nls=nls, cond=cnd,
+                a=float(rng.uniform(0.1, 1.2)), qconst=float(rng.uniform(1.0, 8.0)), dt=float(rng.choice([0.002, 0.01, 1.0])))
+
+
+def _nl_padded(nl):
+    """neighbour rows as the reference uses them: [cn, ids...]"""
+    return [[len(r)] + list(r) for r in nl]
+
+
+def _replay_relaxation(kind, case, clause, model, seed):
+    import importlib
+    import os
+    import tempfile
+
+    import numpy as np
+    d, fast, pbc, cage, cond = _parse(case)
+    Dm = importlib.import_module(MOD)
+    rng = np.random.default_rng(seed + 12345)
+    sizes = [(2, 1), (2, 2), (3, 2), (3, 3), (4, 3), (5, 4), (6, 5), (7, 3), (4, 6), (9, 4)]
+    mt, mn = model.get("T"), model.get("N")
+    if isinstance(mt, int) and isinstance(mn, int) and 2 <= mt <= 8 and 1 <= mn <= 8:
+        sizes = [(mt, mn)] + sizes
+    tried = 0
+    tmpdir = tempfile.mkdtemp(prefix="pyvc-c06-")
+    try:
+        for rep in range(4):
+            for (T, N) in sizes:
+                if cage and N < 2:
+                    continue
+                w = _random_world(rng, d, pbc, cage, cond, T, N, kind)
+                tried += 1
+                snaps = _mk_snapshots(w["pos"], w["ts"], w["ptype"], w["H"])
+                nfile = ""
+                nls_ref = None
+                if cage:
+                    nfile = os.path.join(tmpdir, f"nl_{tried}.dat")
+                    _write_neighbors(nfile, w["nls"] if kind == "linear" else w["nls"][:1])
+                    nls_ref = [_nl_padded(x) for x in w["nls"]] if kind == "linear" else _nl_padded(w["nls"][0])
+                cls = Dm.Dynamics if kind == "linear" else Dm.LogDynamics
+                inputs = {"T": T, "N": N, "d": d, "positions": w["pos"].tolist(), "timesteps": w["ts"].tolist(), "particle_type": w["ptype"].tolist(),
+                          "diameters": w["diameters"], "a": w["a"], "qconst": w["qconst"], "dt": w["dt"], "cal_type": "fast" if fast else "slow",
+                          "ppp": w["ppp"].tolist(), "hmatrix": None if w["H"] is None else w["H"].tolist(),
+                          "neighbors": w["nls"] if kind == "linear" else (w["nls"][:1] if cage else None),
+                          "condition": None if w["cond"] is None else w["cond"].tolist()}
+                keep = w["pos"].copy()
+                try:
+                    obj = cls(xu_snapshots=None if pbc else snaps, x_snapshots=snaps if pbc else None, dt=w["dt"], ppp=w["ppp"],
+                              diameters=w["diameters"], a=w["a"], cal_type="fast" if fast else "slow", neighborfile=nfile, max_neighbors=30)
+                    got = obj.relaxation(qconst=w["qconst"], condition=w["cond"], outputfile="")
+                except Exception as e:  # noqa
+                    return {"ran": True, "failed": True, "searched": tried, "from_model": False, "inputs": inputs, "detail": f"raises {type(e).__name__}: {e}"}
+                diam = np.array([w["diameters"][int(t)] for t in w["ptype"]])
+                want = _ref_table(kind, w["pos"], w["ts"], w["dt"], w["H"], w["ppp"], nls_ref, w["cond"], diam, w["a"], w["qconst"], fast)
+                names = "t isf Qt X4_Qt msd alpha2".split()
+                bad = None
+                if list(got.columns) != names or got.shape != (T - 1, 6):
+                    bad = f"result has columns {list(got.columns)} and shape {got.shape}"
+                else:
+                    g = got.values
+                    for j, nm in enumerate(names):
+                        for k in range(T - 1):
+                            x, y = float(g[k, j]), float(want[k, j])
+                            if x != x and y != y:
+                                continue     # 0/0 on both sides (a frame pair without any motion): outside the statement
+                            if not (abs(x - y) <= 1e-9 * max(1.0, abs(x), abs(y))):
+                                bad = f"row k={k} (lag {k + 1}) column {nm}: real code {x!r}, definition {y!r}"
+                                break
+                        if bad:
+                            break
+                if bad is None and not np.array_equal(keep, np.array([s_.positions for s_ in snaps.snapshots])):
+                    bad = "the trajectory was modified"
+                if bad:
+                    return {"ran": True, "failed": True, "searched": tried, "from_model": False, "inputs": inputs, "detail": bad}
+    finally:
+        import shutil
+        shutil.rmtree(tmpdir, ignore_errors=True)
+    return {"ran": True, "failed": False, "searched": tried, "detail": "real code agrees with the definitions on every seeded trajectory"}
 
 
 UNITS = [DynRelaxation()]
